@@ -179,8 +179,9 @@ func (s *Scanner) scanComment() string {
 	offs := s.offset - 1 // position of initial '/'
 	next := -1           // position immediately following the comment; < 0 means invalid comment
 	numCR := 0
+	sharp := s.src[offs] == '#' // #-style comment: the next char has no special meaning
 
-	if s.ch == '/' {
+	if s.ch == '/' && !sharp {
 		//-style comment
 		// (the final '\n' is not considered part of the comment)
 		s.next()
@@ -198,7 +199,7 @@ func (s *Scanner) scanComment() string {
 		goto exit
 	}
 	/*-style comment */
-	if s.ch == '*' {
+	if s.ch == '*' && !sharp {
 		s.next()
 		for s.ch >= 0 {
 			ch := s.ch
@@ -216,7 +217,7 @@ func (s *Scanner) scanComment() string {
 		goto exit
 	}
 	// # - style comment, as default
-	s.next()
+	// (only the initial '#' is consumed so far: s.ch may already be the '\n')
 	for s.ch != '\n' && s.ch >= 0 {
 		if s.ch == '\r' {
 			numCR++
